@@ -8,6 +8,9 @@
   returns-clique-marginals       loopy_belief_propagation returns what clique_marginals computed from its own messages
   identity-compare               attribute / clique names are excluded from a complement by identity (`is not`) only when both names
                                  range over the same container; names from different containers must be compared by equality
+  oracle-on-copies               the oracles update tables in place (`belief += ...`): every such site acts on objects allocated by the call or on
+                                 the oracle's own messages, never on (an element of) the caller's potentials - those are read again by the
+                                 next call and by the caller (E2 origin analysis)
   call-local-cache               a memo table on the oracle object whose entries depend on the call's arguments is emptied by that call
   gbp-message-sets               the three message sets of the minimal region-graph propagation are instances of ONE recipe - In(x) =
                                  edges entering the sub-graph below x from outside: {(s, x) : s parent of x} + {(q, d) : d descendant of x,
@@ -70,10 +73,41 @@ def run(ctx):
         ctx.ob('returns-clique-marginals', lbp, r, ok,
                'must return self.clique_marginals(<messages>, <messages>, %s); returns `%s`' % (pot, U(v) if v is not None else None))
     check_identity_compares(ctx)
+    check_on_copies(ctx)
     ctx.floor('returned-table constructions', n_ret, 2)
     check_gbp_sets(ctx)
     check_call_local_caches(ctx, [gbp, lbp, cm, repo.nfunc(RG, 'RegionGraph.hazan_peng_shashua')])
     ctx.floor('exp sites', sum(1 for o in ctx.obligations if o.rule == 'exp-normalised'), 2)
+
+
+def check_on_copies(ctx):
+    from ..engines.alias import Scope
+    scope = Scope(ctx.repo, [FG, RG, 'src/mbi/clique_vector.py', 'src/mbi/factor.py', 'src/mbi/domain.py'], {'potentials': 'cv', 'marginals': 'cv'})
+    scope.solve()
+    n = 0
+    for rel, q in ((FG, 'FactorGraph.loopy_belief_propagation'), (FG, 'FactorGraph.clique_marginals'), (FG, 'FactorGraph.convergent_belief_propagation'),
+                   (RG, 'RegionGraph.generalized_belief_propagation'), (RG, 'RegionGraph.hazan_peng_shashua'), (RG, 'RegionGraph.wiegerinck'),
+                   (RG, 'RegionGraph.loh_wibisono')):
+        if not ctx.repo.has_func(rel, q):
+            continue
+        fi = ctx.repo.func(rel, q)
+        summ = scope.summaries.get((rel, q))
+        if summ is None:
+            raise AnalysisError('%s: no origin summary' % q)
+        ctx.analysed(fi)
+        seen = set()
+        for site in summ.sites:
+            k = (getattr(site.node, 'lineno', 0), getattr(site.node, 'col_offset', 0), site.what)
+            if k in seen:
+                continue
+            seen.add(k)
+            bad = sorted(t for t in site.origins if t.startswith(('P:', 'Pe:')) and not t.endswith(':self'))
+            n += 1
+            ctx.ob('oracle-on-copies', fi, site.node, not bad,
+                   '%s acts on %s' % (site.what, 'objects allocated in this call / the oracle\'s own state' if not bad else
+                                      'the caller\'s arguments (%s): the tables handed in are overwritten, so a second call with the same '
+                                      'potentials (or the caller itself) reads the modified values' % ', '.join(bad)))
+    ctx.floor('in-place sites in the approximate oracles', n, 10)
 
 
 def binding_iter(name_node):
